@@ -18,6 +18,28 @@ def cases(classes=7, max_v=6, max_e=10):
     )
 
 
+def perturb(case, vs, ls, u):
+    """
+    Between two renderings of one universe: re-number the vertices' `i` attribute (titles / renderings depend on
+    it), end one membership from the VERTEX side and start another, i.e. state a renderer may have memoised
+    is now stale.  -> True if anything changed.
+    """
+    sel = case.get("extra", 0)
+    changed = False
+    for v in vs:
+        v.i = v.i + 100 + (sel % 3)
+        changed = True
+    members = u.vertices
+    outside = [v for v in vs if all(v is not m for m in members)]
+    if len(members) >= 2 and sel & 1:
+        members[(sel >> 1) % (len(members) - 1)].remove_from_universe(u)     # a non-last member leaves
+        changed = True
+    if outside and sel & 2:
+        outside[(sel >> 2) % len(outside)].add_to_universe(u)
+        changed = True
+    return changed
+
+
 def build(case):
     from edgegraph.structure import Universe
 
